@@ -1,3 +1,4 @@
+From Coq Require Import Qround.
 From Verif Require Import Prelude TreeCache.
 Open Scope Q_scope.
 
@@ -604,4 +605,206 @@ Theorem memo_own_invalidate_stale_peek :
 Proof.
   exists [Do Self (Build (Some (e12, false)) false); Peek; Do Child (Build (Some ([1; 3 # 2], false)) true)], [2].
   vm_compute. discriminate.
+Qed.
+
+(* ---------- patch metadata: written once, read back by every reopening ---------- *)
+Lemma mstep_file {M} (s : @mst M) o : mfile (mstep s o) = mfile s.
+Proof. destruct o as [[| |]|]; reflexivity. Qed.
+
+Lemma mrun_file {M} h (s : @mst M) : mfile (mrun h s) = mfile s.
+Proof.
+  revert s. induction h as [|o h IH]; intros s; [reflexivity|].
+  unfold mrun in *. simpl. rewrite IH. apply mstep_file.
+Qed.
+
+Lemma mrun_obj {M} h (s : @mst M) :
+  mobj (mrun h s) = if existsb is_reopen h then mfile s else mobj s.
+Proof.
+  revert s. induction h as [|o h IH]; intros s; [reflexivity|].
+  unfold mrun in *. simpl. rewrite IH.
+  destruct o as [[| |]|]; simpl; try reflexivity.
+  destruct (existsb is_reopen h); reflexivity.
+Qed.
+
+Theorem meta_after_history {M} (enc : M -> M) h ms :
+  mobj (mrun h (m_create enc ms)) = if existsb is_reopen h then map enc ms else ms.
+Proof. rewrite mrun_obj. reflexivity. Qed.
+
+(* a writer that reproduces the values of this catalog: the object in use after ANY history holds
+   what the creating object computed from the records *)
+Theorem meta_history_independent {M} (enc : M -> M) h ms :
+  (forall m, In m ms -> enc m = m) -> mobj (mrun h (m_create enc ms)) = ms.
+Proof.
+  intros H. rewrite meta_after_history. destruct (existsb is_reopen h); [|reflexivity].
+  rewrite (map_ext_in enc (fun m => m) ms H). apply map_id.
+Qed.
+
+Lemma mstates_length {M} h (s : @mst M) : length (mstates h s) = length h.
+Proof. revert s. induction h as [|o h IH]; intros s; simpl; [reflexivity|]. rewrite IH. reflexivity. Qed.
+
+(* ---------- the patch linkage skips only patch pairs without counted pairs ---------- *)
+Section LinkageP.
+  Context {P : Type} (d : P -> P -> Q) (counted : P -> P -> bool) (th : Q).
+  Context (d_sym : forall a b, d a b == d b a)
+          (d_tri : forall a b c, d a c <= d a b + d b c)
+          (counted_close : forall p q, counted p q = true -> d p q <= th).
+
+  Lemma linked_complete a b pa pb p q :
+    covers d a pa -> covers d b pb -> In p pa -> In q pb -> counted p q = true ->
+    linked d th a b = true.
+  Proof.
+    intros Ha Hb Hp Hq Hc. unfold linked, Qleb. apply Qle_bool_iff.
+    specialize (Ha p Hp). specialize (Hb q Hq). apply counted_close in Hc.
+    eapply Qle_trans; [apply (d_tri _ p _)|].
+    eapply Qle_trans; [apply Qplus_le_r; apply (d_tri _ q _)|].
+    rewrite (d_sym q (fst b)).
+    setoid_replace (snd a + snd b + th) with (snd a + (th + snd b)) by ring.
+    apply Qplus_le_compat; [exact Ha|]. apply Qplus_le_compat; assumption.
+  Qed.
+
+  Lemma count_if_none {A} (f : A -> bool) l : (forall x, In x l -> f x = false) -> count_if f l = O.
+  Proof.
+    unfold count_if. induction l as [|x l IH]; intros H; simpl; [reflexivity|].
+    rewrite (H x (or_introl eq_refl)). apply IH. intros y Hy. apply H. right. exact Hy.
+  Qed.
+
+  Lemma pairs_unlinked a b pa pb :
+    covers d a pa -> covers d b pb -> linked d th a b = false -> pairs counted pa pb = O.
+  Proof.
+    intros Ha Hb Hl. unfold pairs.
+    assert (H : forall p, In p pa -> count_if (counted p) pb = O).
+    { intros p Hp. apply count_if_none. intros q Hq.
+      destruct (counted p q) eqn:Hc; [|reflexivity].
+      rewrite (linked_complete a b pa pb p q Ha Hb Hp Hq Hc) in Hl. discriminate. }
+    clear Ha. induction pa as [|p pa IH]; simpl; [reflexivity|].
+    rewrite (H p (or_introl eq_refl)). simpl. apply IH. intros p' Hp'. apply H. right. exact Hp'.
+  Qed.
+
+  (* radii that contain the records: visiting the linked patch pairs only counts every pair *)
+  Theorem count_linked_all ms c1 c2 :
+    covers_all d ms c1 -> covers_all d ms c2 ->
+    count_linked d counted th ms c1 c2 = count_all counted ms c1 c2.
+  Proof.
+    intros H1 H2. unfold count_linked, count_all, count_with, covers_all in *.
+    rewrite Forall_forall in H1, H2.
+    f_equal. apply map_ext_in. intros x Hx. f_equal. apply map_ext_in. intros y Hy.
+    destruct (linked d th (fst x) (fst y)) eqn:Hl; [reflexivity|].
+    symmetry. apply (pairs_unlinked (fst x) (fst y)); auto.
+  Qed.
+
+  Lemma map_snd_combine_len {A B C} (l1 : list A) (l2 : list B) (c : list C) :
+    length l1 = length l2 -> map snd (combine l1 c) = map snd (combine l2 c).
+  Proof.
+    revert l2 c. induction l1 as [|x l1 IH]; intros [|y l2] c H; simpl in *; try discriminate; [reflexivity|].
+    destruct c as [|z c]; simpl; [reflexivity|]. f_equal. apply IH. congruence.
+  Qed.
+
+  Lemma count_all_length ms ms' c1 c2 :
+    length ms = length ms' -> count_all counted ms c1 c2 = count_all counted ms' c1 c2.
+  Proof.
+    intros H. unfold count_all, count_with.
+    assert (E : forall m,
+      list_sum (map (fun x : pmeta P * list P =>
+                  list_sum (map (fun y : pmeta P * list P => pairs counted (snd x) (snd y)) (combine m c2)))
+                 (combine m c1)) =
+      list_sum (map (fun pa => list_sum (map (fun pb => pairs counted pa pb) (map snd (combine m c2))))
+                    (map snd (combine m c1)))).
+    { intros m. rewrite map_map. f_equal. apply map_ext. intros x. rewrite map_map. reflexivity. }
+    rewrite (E ms), (E ms').
+    rewrite (map_snd_combine_len ms ms' c1 H), (map_snd_combine_len ms ms' c2 H). reflexivity.
+  Qed.
+
+  (* two descriptions of the same patches that both contain the records give the same counts *)
+  Theorem count_linked_any_cover ms ms' c1 c2 :
+    length ms = length ms' ->
+    covers_all d ms c1 -> covers_all d ms c2 -> covers_all d ms' c1 -> covers_all d ms' c2 ->
+    count_linked d counted th ms c1 c2 = count_linked d counted th ms' c1 c2.
+  Proof.
+    intros L A1 A2 B1 B2. rewrite (count_linked_all ms), (count_linked_all ms') by assumption.
+    apply count_all_length. exact L.
+  Qed.
+
+  (* the counts of a measurement after ANY history (reopenings included) are those of the creating
+     object, (a) when the writer reproduces the values ... *)
+  Theorem linked_counts_history_independent enc h ms c1 c2 :
+    (forall m, In m ms -> enc m = m) ->
+    count_linked d counted th (mobj (mrun h (m_create enc ms))) c1 c2 = count_linked d counted th ms c1 c2.
+  Proof. intros H. rewrite (meta_history_independent enc h ms H). reflexivity. Qed.
+
+  (* ... (b) or when what it writes still contains the records (e.g. radii rounded UP) *)
+  Theorem linked_counts_history_independent_cover enc h ms c1 c2 :
+    covers_all d ms c1 -> covers_all d ms c2 ->
+    covers_all d (map enc ms) c1 -> covers_all d (map enc ms) c2 ->
+    count_linked d counted th (mobj (mrun h (m_create enc ms))) c1 c2 = count_linked d counted th ms c1 c2.
+  Proof.
+    intros A1 A2 B1 B2. rewrite meta_after_history. destruct (existsb is_reopen h); [|reflexivity].
+    apply count_linked_any_cover; try assumption. apply map_length.
+  Qed.
+End LinkageP.
+
+(* ---------- the line as an instance; writers that round ---------- *)
+Lemma dline_sym a b : dline a b == dline b a.
+Proof. unfold dline. rewrite (Qabs_Qminus a b). apply Qeq_refl. Qed.
+
+Lemma dline_tri a b c : dline a c <= dline a b + dline b c.
+Proof.
+  unfold dline. setoid_replace (a - c) with ((a - b) + (b - c)) by ring. apply Qabs_triangle.
+Qed.
+
+Definition close_line (th : Q) (p q : Q) : bool := Qleb (dline p q) th.
+Lemma close_line_close th p q : close_line th p q = true -> dline p q <= th.
+Proof. unfold close_line, Qleb. apply Qle_bool_iff. Qed.
+
+Lemma round_up_ge k r : r <= Qceiling (r * (Zpos k # 1)) # k.
+Proof.
+  rewrite (Qmake_Qdiv (Qceiling (r * (Zpos k # 1))) k).
+  assert (Hk : 0 < inject_Z (Zpos k)) by reflexivity.
+  apply Qle_shift_div_l; [exact Hk|]. apply Qle_ceiling.
+Qed.
+
+Lemma enc_up_covers k m pts : covers dline m pts -> covers dline (enc_up k m) pts.
+Proof.
+  intros H p Hp. unfold enc_up. simpl. eapply Qle_trans; [apply (H p Hp)|]. apply round_up_ge.
+Qed.
+
+Lemma enc_up_covers_all k ms cat : covers_all dline ms cat -> covers_all dline (map (enc_up k) ms) cat.
+Proof.
+  unfold covers_all. revert cat. induction ms as [|m ms IH]; intros cat H; simpl; [constructor|].
+  destruct cat as [|pts cat]; simpl in *; [constructor|].
+  inversion H as [|? ? Hm Hr]; subst. constructor; [apply enc_up_covers; exact Hm|apply IH; exact Hr].
+Qed.
+
+(* rounding the radii up is harmless after any history *)
+Theorem round_up_history_independent k th h ms c1 c2 :
+  covers_all dline ms c1 -> covers_all dline ms c2 ->
+  count_linked dline (close_line th) th (mobj (mrun h (m_create (enc_up k) ms))) c1 c2 =
+  count_linked dline (close_line th) th ms c1 c2.
+Proof.
+  intros A1 A2.
+  apply (linked_counts_history_independent_cover dline (close_line th) th dline_sym dline_tri (close_line_close th));
+    try assumption; apply enc_up_covers_all; assumption.
+Qed.
+
+(* rounding to the nearest 1e-8 is not: two patches whose facing records are as far apart as the
+   largest counted separation, radii 0.010000004 -> 0.01: the creating object counts the pair,
+   a reopened catalog does not *)
+Theorem round_nearest_refuted :
+  exists k th ms c1 c2 h,
+    covers_all dline ms c1 /\ covers_all dline ms c2 /\
+    count_linked dline (close_line th) th ms c1 c2 = count_all (close_line th) ms c1 c2 /\
+    count_linked dline (close_line th) th (mobj (mrun h (m_create (enc_round k) ms))) c1 c2 <>
+    count_linked dline (close_line th) th ms c1 c2.
+Proof.
+  exists 100000000%positive, (4999992 # 1000000000),
+         [(1 # 10, 10000004 # 1000000000); (1 # 8, 10000004 # 1000000000)],
+         [[(1 # 10) + (10000004 # 1000000000); 9 # 100]; [(1 # 8) - (10000004 # 1000000000); 13 # 100]],
+         [[(1 # 10) + (10000004 # 1000000000)]; [(1 # 8) - (10000004 # 1000000000)]],
+         [All (Measure {| c_edges := [1 # 4; 1]; c_closed := false; c_scales := [] |} Reference); All Reopen].
+  split; [|split; [|split]].
+  - repeat constructor; intros p Hp; simpl in Hp;
+      repeat (destruct Hp as [<-|Hp]; [apply Qle_bool_iff; vm_compute; reflexivity|]); destruct Hp.
+  - repeat constructor; intros p Hp; simpl in Hp;
+      repeat (destruct Hp as [<-|Hp]; [apply Qle_bool_iff; vm_compute; reflexivity|]); destruct Hp.
+  - vm_compute. reflexivity.
+  - vm_compute. discriminate.
 Qed.
